@@ -38,7 +38,12 @@ func String(str string, t reflect.Type) (reflect.Value, error) {
 			if parseErr != nil {
 				return reflect.Value{}, fmt.Errorf("parse error of item %d %q: %s", idx, strVal, parseErr)
 			}
-			castSlice = reflect.Append(castSlice, castVal.Elem())
+			// scalars come back as pointers to the parsed value,
+			// slices and maps as the value itself
+			if castVal.Kind() == reflect.Ptr {
+				castVal = castVal.Elem()
+			}
+			castSlice = reflect.Append(castSlice, castVal)
 		}
 		return castSlice, nil
 
